@@ -186,7 +186,7 @@ def replay(body):
 def run(ctx):
     rng = ctx.rng
     ctx.check_theorems()
-    ctx.check_generated(['padcrop', 'qpat', 'qbin'])
+    ctx.check_generated(['padcrop', 'qpat', 'qbin', 'qbgmask'])
 
     # (K1) UserTemplate: index maps of the model vs the implementation, exhaustive source x target 1..12 per axis
     N = 12
